@@ -81,7 +81,7 @@ func (c *PublishHeader) WriteHTMLTo(w io.Writer) (int64, error) {
 	}
 
 	if c.options.ShowSurnames {
-		badge := core.NewCountBadge(getSurnames(c.document).Len())
+		badge := core.NewCountBadge(getSurnames(c.document, c.options.LivingVisibility).Len())
 		item := core.NewNavItem(
 			core.NewComponents(core.NewText("Surnames "), badge),
 			c.selectedTab == selectedSurnamesTab,
@@ -128,23 +128,37 @@ func (c *PublishHeader) WriteHTMLTo(w io.Writer) (int64, error) {
 // surnamesCache holds the surnames of each document that has been published.
 // It must be keyed by the document: a single set shared by all documents
 // would show the surnames of the first document on the pages of every later
-// one. map[*gedcom.Document]*gedcom.StringSet
+// one. map[surnamesCacheKey]*gedcom.StringSet
 var surnamesCache sync.Map
 
-func getSurnames(document *gedcom.Document) *gedcom.StringSet {
-	if cached, ok := surnamesCache.Load(document); ok {
+// surnamesCacheKey is the key of surnamesCache. The surnames depend on which
+// individuals are visible.
+type surnamesCacheKey struct {
+	document   *gedcom.Document
+	visibility LivingVisibility
+}
+
+func getSurnames(document *gedcom.Document, visibility LivingVisibility) *gedcom.StringSet {
+	cacheKey := surnamesCacheKey{document, visibility}
+	if cached, ok := surnamesCache.Load(cacheKey); ok {
 		return cached.(*gedcom.StringSet)
 	}
 
 	surnames := gedcom.NewStringSet()
 	for _, individual := range document.Individuals() {
+		// The surnames of living individuals are only published when living
+		// individuals are shown.
+		if visibility != LivingVisibilityShow && individual.IsLiving() {
+			continue
+		}
+
 		surname := individual.Name().Surname()
 		if surname != "" {
 			surnames.Add(surname)
 		}
 	}
 
-	surnamesCache.Store(document, surnames)
+	surnamesCache.Store(cacheKey, surnames)
 
 	return surnames
 }
